@@ -1,4 +1,5 @@
 import LopdfModel.Thm.FileLoadObjectsStream
+import LopdfModel.Thm.FileIncrObjects
 import LopdfModel.Thm.C01Indirect
 /-
   C01 — **`file_rt` for table saves**: the file-level theorems (`Thm/File*.lean`) composed with
@@ -206,7 +207,7 @@ theorem streamTrailer_values_ok (d : SDoc) (hmax : d.maxId + 2 ≤ 4294967295) (
     · subst hp
       apply intArr_ok
       intro o ho
-      simp only [xrefStreamIndex, List.mem_flatten, List.mem_map] at ho
+      simp only [List.mem_flatten, List.mem_map] at ho
       obtain ⟨l, ⟨sec, hsec, rfl⟩, ho⟩ := ho
       obtain ⟨hb, _⟩ := streamSecs_ok (xmapStream [] d) (d.maxId + 1) (xmapStream_ok [] d hg) (by omega) sec hsec
       simp only [List.mem_cons, List.mem_nil_iff, or_false] at ho
@@ -266,6 +267,67 @@ theorem file_rt_stream (order : Option (List Nat)) (d : SDoc) (out : Bytes) (d' 
   obtain ⟨hr1, hr2⟩ := hwf.range p hp
   exact indirectReadsBack_of_ok _ _ _ (by simp [U32_MAX]; omega)
     (by have := hwf.gens p hp; simp [U16_MAX]; omega) (hobjs p hp)
+
+/-! ### incremental saves -/
+
+theorem setSize_readsBack (tr : Dict) (n : Nat) (hn : n ≤ 4294967296)
+    (htr : WFObj (.dict tr) ∧ height (.dict tr) ≤ MAX_NESTING ∧ NoRealD tr) :
+    ∀ rest, DictReadsBack (tr.set SIZE (.int ((n : Int) + 1))) rest := by
+  obtain ⟨t1, t2, t3⟩ := htr
+  intro rest
+  unfold DictReadsBack
+  have hi : -(I64_MAX : Int) - 1 ≤ ((n : Int) + 1) ∧ ((n : Int) + 1) ≤ I64_MAX := by
+    simp [I64_MAX]; omega
+  apply pDictionary_rt_noReal
+  · simp only [WFObj, WF] at t1 ⊢
+    exact ⟨Dict_nodup_set tr SIZE _ t1.1, WFD_set_int _ _ _ hi t1.2⟩
+  · simp only [height] at t2 ⊢
+    have := heightD_set_int tr SIZE ((n : Int) + 1)
+    omega
+  · exact NoRealD_set_int _ _ _ t3
+
+/-- **Loading an incremental save (C07 `incr_load`), no parsing hypothesis left.** `d1` saved
+plainly (classic table), then the revision `d2` saved on top by `IncrementalDocument::save` with
+`Prev` = offset of the first cross-reference section; both well-formed and real-free, an object
+of the new revision that re-uses a number keeps its generation; file < 4 GiB. Then `Reader::read`
+on the two-revision file succeeds with the header of the first revision, the new trailer (minus
+`Prev`), and for EVERY object id the object of the newest revision that holds it: new objects
+override previous ones, untouched previous objects are still there, nothing else appears. -/
+theorem file_rt_incr (order : Option (List Nat))
+    (d1 d2 : SDoc) (out1 out2 : Bytes) (d1' d2' : SDoc)
+    (hk1 : d1.xrefKind = .table) (hk2 : d2.xrefKind = .table)
+    (h1 : saveFrom [] d1 = some (out1, d1')) (h2 : saveIncr out1 d2 = some (out2, d2'))
+    (hlen : out2.length < 4294967296)
+    (hmax1 : d1.maxId + 1 ≤ 4294967295) (hmax2 : d2.maxId + 1 ≤ 4294967295)
+    (hwf1 : DocWF d1) (hwf2 : DocWF d2)
+    (hobjs1 : ∀ p ∈ d1.objects, ObjOK p.2) (hobjs2 : ∀ p ∈ d2.objects, ObjOK p.2)
+    (htr1 : WFObj (.dict d1.trailer) ∧ height (.dict d1.trailer) ≤ MAX_NESTING ∧ NoRealD d1.trailer)
+    (htr2 : WFObj (.dict d2.trailer) ∧ height (.dict d2.trailer) ≤ MAX_NESTING ∧ NoRealD d2.trailer)
+    (hgen : ∀ p2 ∈ d2.objects, ∀ p1 ∈ d1.objects, p2.1.1 = p1.1.1 → p2.1.2 = p1.1.2)
+    (hprev : d2.trailer.get PREV = some (.int ((bodyOf [] d1).length : Int)))
+    (hnoprev : d1.trailer.get PREV = none) (hstm : d2.trailer.get XREFSTM = none)
+    (henc : d2.trailer.has ENCRYPT = false)
+    (hv1 : ∀ b ∈ d1.version, notEol b = true) (hv2 : validUtf8 d1.version = true) :
+    ∃ L : Loaded, loadDocOrd order out2 = .ok L ∧ L.version = d1.version ∧ L.binaryMark = d1.binaryMark ∧
+      L.trailer = d2'.trailer.remove PREV ∧
+      ∀ id, L.objects.get id = (d2.objects.get id).orElse (fun _ => d1.objects.get id) := by
+  obtain ⟨_, e1⟩ := saveFrom_table_eq [] d1 out1 d1' hk1 h1
+  obtain ⟨_, e2⟩ := saveFrom_table_eq (incrPre out1) d2 out2 d2' hk2 h2
+  have hnd : d2.trailer.keys.Nodup := by
+    have := htr2.1
+    simp only [WFObj, WF] at this
+    exact this.1
+  have hobj : ∀ (d : SDoc), DocWF d → d.maxId + 1 ≤ 4294967295 → (∀ p ∈ d.objects, ObjOK p.2) →
+      ∀ p ∈ d.objects, IndirectReadsBack p.1.1 p.1.2 p.2 := by
+    intro d hwf hmax hobjs p hp
+    obtain ⟨hr1, hr2⟩ := hwf.range p hp
+    exact indirectReadsBack_of_ok _ _ _ (by simp [U32_MAX]; omega)
+      (by have := hwf.gens p hp; simp [U16_MAX]; omega) (hobjs p hp)
+  exact load_of_incr_save_with _ (loadDocOrd_arr_nil order) d1 d2 out1 out2 d1' d2' hk1 hk2 h1 h2 hlen hmax1 hmax2
+    hwf1 hwf2 hnd hgen hprev hnoprev hstm henc
+    (fun rest => by rw [e1]; exact setSize_readsBack d1.trailer d1.maxId (by omega) htr1 _)
+    (fun rest => by rw [e2]; exact setSize_readsBack d2.trailer d2.maxId (by omega) htr2 _)
+    (hobj d1 hwf1 hmax1 hobjs1) (hobj d2 hwf2 hmax2 hobjs2) hv1 hv2
 
 /-! ### non-vacuity -/
 
